@@ -123,7 +123,11 @@ func writeReplay(property string, f *interp.Finding) (string, error) {
 	h := sha1.Sum(b)
 	dir := filepath.Join(verifDir, "replays")
 	os.MkdirAll(dir, 0o755)
-	path := filepath.Join(dir, fmt.Sprintf("%s-%s-%s.json", property, f.Harness, hex.EncodeToString(h[:5])))
+	tag := f.Harness
+	if f.Kind == "steps" || f.Kind == "deadlock" {
+		tag += "-steps"
+	}
+	path := filepath.Join(dir, fmt.Sprintf("%s-%s-%s.json", property, tag, hex.EncodeToString(h[:5])))
 	return path, os.WriteFile(path, b, 0o644)
 }
 
@@ -139,6 +143,9 @@ type replayOutcome struct {
 
 // runNative replays a file against the natively compiled harness.
 func runNative(path string, race bool, timeout time.Duration) replayOutcome {
+	if strings.Contains(path, "-steps-") {
+		timeout = 20 * time.Second // a hang is confirmed by a timeout: keep it short
+	}
 	bin := nativeBin()
 	if race {
 		bin += "-race"
